@@ -17,6 +17,7 @@ import (
 	"context"
 	"fmt"
 	"net/http"
+	"runtime"
 
 	jose "github.com/go-jose/go-jose/v4"
 
@@ -86,6 +87,17 @@ func runRotation(run *ev.Run, i int) {
 		return out
 	}
 	skip := r.IntN(4) == 0
+	// document dimension (own stream): entries no verifier can use among the published keys (noise.go)
+	var noiseC, noiseS []placedNoise
+	if nr := run.CaseRand(79, i); nr.IntN(3) == 0 {
+		noiseS = genNoise(nr, len(S), nil)
+		if len(S) > 0 && nr.IntN(2) == 0 {
+			noiseS[0].Before = nr.IntN(len(S)) // before at least one published key
+		}
+		if nr.IntN(2) == 0 {
+			noiseC = genNoise(nr, len(C), nil)
+		}
+	}
 	rt := &jwksRT{}
 	hc := &http.Client{Transport: rt}
 	ks := rp.NewRemoteKeySet(hc, "https://op.verif.test/keys")
@@ -112,17 +124,24 @@ func runRotation(run *ev.Run, i int) {
 	unknown := keys.SignAs(keys.Get("c02-rot-unknown", jose.ES256), jose.ES256, "rot-unknown-kid", []byte(`{"force":"refresh"}`), "")
 	wit := func(extra map[string]any) map[string]any {
 		m := map[string]any{"cached_before_rotation": describeSet(entries(C)), "published_after_rotation": describeSet(entries(S)), "rotation": mode, "skip_remote_check": skip}
+		if len(noiseC) > 0 || len(noiseS) > 0 {
+			m["jwks_document_before_rotation"], m["jwks_document_after_rotation"] = string(jwksBody(entries(C), noiseC)), string(jwksBody(entries(S), noiseS))
+			m["note"] = "the documents also list entries no verifier can use for a signature; the published keys are the other entries"
+		}
 		for k, v := range extra {
 			m[k] = v
 		}
 		return m
 	}
 	fail := func(key, what string, extra map[string]any) {
+		if len(noiseC) > 0 || len(noiseS) > 0 {
+			key += ":jwks-with-unusable-entries"
+		}
 		run.Violation(key, caseID, what, wit(extra))
 	}
 
 	// 1. publish C, warm the cache with a genuine token of C
-	rt.set(entries(C))
+	rt.setDoc(entries(C), noiseC)
 	t0, p0 := sign(C[0], "warm")
 	got, err, pi := verify(t0)
 	run.Eval()
@@ -139,7 +158,7 @@ func runRotation(run *ev.Run, i int) {
 		return
 	}
 	// 2. rotate, force a download and prove that its result is stored
-	rt.set(entries(S))
+	rt.setDoc(entries(S), noiseS)
 	h0 := rt.hitCount()
 	stored := false
 	for n := 0; n < 2000; n++ {
@@ -155,6 +174,7 @@ func runRotation(run *ev.Run, i int) {
 			stored = true
 			break
 		}
+		runtime.Gosched() // let the download goroutine finish its bookkeeping (a barrier, no verdict depends on it)
 	}
 	if !stored {
 		run.Inconclusive("rotation: the forced downloads never became two distinct downloads")
@@ -190,8 +210,18 @@ func runRotation(run *ev.Run, i int) {
 			fail("C02:rp-remote:rotation:payload-differs", "VerifySignature handed back bytes other than the signed payload", map[string]any{"token": tok, "got": string(got)})
 		default:
 			run.Observed("rotation:" + cls + "-judged")
+			if inS[k.kid] && len(noiseS) > 0 {
+				for si, sk := range S {
+					if sk.kid == k.kid && usableAfterNoise(noiseS, si) {
+						run.Observed("jwks-unusable-entries:part-R:published-key-listed-after-one-accepted")
+					}
+				}
+				for _, n := range noiseS {
+					run.Count("unusable-jwks-entry:part-R", n.Kind+" -> published key accepted")
+				}
+			}
 			run.Count("rotation", mode+" "+cls+" "+map[bool]string{true: "accepted", false: "refused"}[err == nil])
-			run.Distinct(fmt.Sprintf("rotation|%s|%d->%d|%s|skip=%v", mode, len(C), len(S), cls, skip))
+			run.Distinct(fmt.Sprintf("rotation|%s|%d->%d|%s|skip=%v|unusable=%s/%s", mode, len(C), len(S), cls, skip, noisePlacement(len(C), noiseC), noisePlacement(len(S), noiseS)))
 		}
 	}
 }
